@@ -32,7 +32,7 @@ def _strip_either(t):
 def _filter_table(ctx, fn, src_name):
     b = ctx.fbody(name=fn, self_adt=IS_, trait="")
     tab = {}
-    for g, term, bi in b.local_cases(0):
+    for g, term, bi in b.expanded_cases(0):
         names = common.variant_of(g, "filter")
         t = _strip_either(term)
         if names is None:
@@ -91,7 +91,7 @@ def r2(ctx):
     O = "barter_execution::order::Order"
     ds = [d for d in ctx.find(name="to_request_cancel", self_adt=O, allow_many=True)]
     b = ctx.body(ds[0])
-    cases = common.expand_phi_cases(b, b.local_cases(0))
+    cases = common.expand_phi_cases(b, b.expanded_cases(0))
     tab = {}
     for g, term, bi in cases:
         names = common.variant_of(g, "self.state")
@@ -147,9 +147,9 @@ def r4(ctx):
     if not ok:
         return
     cb, _ = mir.closure_body(ctx.facts, opens[2][1])
-    somes = [(g, t, bi) for g, t, bi in cb.local_cases(0) if render(t).startswith("Option::Some")]
+    somes = [(g, t, bi) for g, t, bi in cb.expanded_cases(0) if render(t).startswith("Option::Some")]
     ok = len(somes) == 1
-    ctx.check("close_open_positions_with_market_orders", ok, "one producing path", got=[render(t)[:80] for g, t, bi in cb.local_cases(0)], key="one-some")
+    ctx.check("close_open_positions_with_market_orders", ok, "one producing path", got=[render(t)[:80] for g, t, bi in cb.expanded_cases(0)], key="one-some")
     if not ok:
         return
     g, t, bi = somes[0]
@@ -165,7 +165,7 @@ def r4(ctx):
               atoms_ == {"Try::branch($1.position.current) is Continue", "Try::branch(InstrumentDataState::price($1.data)) is Continue"},
               "an order is produced exactly when the instrument holds a position and has a price", got=sorted(atoms_), key="iff")
     bb = ctx.body(ctx.find(path="barter::strategy::close_positions::build_ioc_market_order_to_close_position"))
-    cases = common.expand_phi_cases(bb, bb.local_cases(0))
+    cases = common.expand_phi_cases(bb, bb.expanded_cases(0))
     tab = {}
     for g2, t2, _ in cases:
         nm = common.variant_of(g2, "position.side")
@@ -208,7 +208,7 @@ def r5(ctx):
         ctx.check("Engine::action:" + variant, ok, "the command is dispatched to its action with its own payload",
                   sites=[c[1]["sp"] for c in cs], got=[render(c[2])[:160] for c in cs], key="dispatch")
         if ok:
-            rets = [t for g, t, bi in b.local_cases(0) if common.variant_of(g, "command") == {variant}]
+            rets = [t for g, t, bi in b.expanded_cases(0) if common.variant_of(g, "command") == {variant}]
             okr = len(rets) == 1 and rets[0][0] == "agg" and mir.short(rets[0][1][4:]) == outv and rets[0][3][0] == cs[0][2]
             ctx.check("Engine::action:" + variant, okr, "and its output is reported under the matching variant",
                       got=[render(r)[:160] for r in rets], key="output")
